@@ -7,6 +7,12 @@ import DFV.Lemmas.C02Near2
 import DFV.Lemmas.C02Frame
 import DFV.Lemmas.C02Labels
 import DFV.Lemmas.C02Hist
+import DFV.Lemmas.C02DictIff
+import DFV.Lemmas.C02Src
+import DFV.Lemmas.C02Store
+import DFV.Lemmas.C02Ex2
+import DFV.Lemmas.C02Clip
+import DFV.Lemmas.C02Fast
 /-!
 # C02 — a field holds exactly the value its specification assigns to every cell
 
@@ -19,6 +25,15 @@ dimensions, every mesh, every component count, every value type `V` (the model o
 so int, float, complex and bool fields are all instances), every specification and every history
 of accepted and rejected assignments.  An array entry is addressed by `i ++ [c]`: cell `i`,
 component `c`; the array of a field on mesh `m` has shape `m.n ++ [nvdim]`, i.e. `(*n, nvdim)`.
+
+Second round (sections "round 2"): acceptance as an EQUIVALENCE on the inputs alone (`Leaf.WF`, `dictWF`,
+`Spec.WF`: `asLeaf_ok_iff`, `asArray_dict_ok_iff`, `line_ok_iff`, `call_ok_iff`, `comp_ok_iff`, `new_ok_iff`);
+setter (any specification, also dictionaries: `VF.setSpec`) / `update_field_values` / constructor agree
+(`assign_paths_agree`, `assign_rejected_iff_malformed`); the source cell of a field given as value in closed
+form, with ties and coarser / finer / shifted sources (`asArray_field_reads_floor_cell`, `…_tie_upper`,
+`…_closed_forms`); ownership in a store model (`no_aliasing_ever`, `field_value_is_copied`, `session_same_mesh_copy`); the dictionary and
+line clauses with hypotheses on the inputs only (`asArray_dict_total`, `construct_dict_call`, `lineData_total`); the kind (bool / int /
+float / complex) of the stored array for a requested / not requested dtype (`kind_*`).
 -/
 namespace DFV.C02
 open DFV DFV.Mesh
@@ -1430,6 +1445,732 @@ theorem history_then_call (isZero : V → Bool) (f : VF V) (hm : f.mesh.Inv) (pr
   intro c hc
   exact hbg _ (by rw [inRange_snoc, hi]; simp [hc])
 
+/-! ## round 2: acceptance as an equivalence (rejected ⇔ malformed) -/
+
+/-- A specification that is not a dictionary is accepted EXACTLY when it is well formed
+(`Leaf.WF`, a statement about the input alone): a number for a scalar field or the number zero; an
+array of the cells' shape (scalar field) or one with last axis `nvdim` that NumPy broadcasts to
+`(*n, nvdim)`; a function returning `nvdim` numbers at EVERY cell centre; a field with `nvdim`
+components and the mesh's dimension names whose region contains the mesh's.  Everything else —
+wrong type, wrong component count, wrong shape — is rejected. -/
+theorem asLeaf_ok_iff (isZero : V → Bool) (l : Leaf V) (m : Mesh) (nv : Nat) :
+    ((∃ a, asArray isZero (.leaf l) m nv = .ok a) ↔ Leaf.WF isZero l m nv) ∧
+    ((∃ e, asArray isZero (.leaf l) m nv = .error e) ↔ ¬ Leaf.WF isZero l m nv) := by
+  have h1 : (∃ a, asArray isZero (.leaf l) m nv = .ok a) ↔ Leaf.WF isZero l m nv :=
+    ⟨fun ⟨a, h⟩ => wf_of_asLeaf_ok isZero l m nv a h, asLeaf_ok_of_wf isZero l m nv⟩
+  refine ⟨h1, ?_⟩
+  rw [← h1]
+  cases asArray isZero (.leaf l) m nv with
+  | ok a => simp
+  | error e => simp
+
+/-- A dictionary over subregions (on a mesh whose subregions are unions of cells, any number of them,
+overlapping in any pattern; `nvdim ≥ 1`) is accepted EXACTLY when it is well formed (`dictWF`, on
+the inputs alone): a constant default can be broadcast to `(*n, nvdim)`; the value of EVERY listed
+subregion is well formed on the subregion's own mesh — also of a subregion completely hidden behind
+earlier ones; and every cell that no listed subregion covers is served by the default (a constant;
+a function returning `nvdim` numbers at that cell's centre; a field with `nvdim` components defined
+there) — in particular a missing default is accepted iff the listed subregions cover the mesh. -/
+theorem asArray_dict_ok_iff (isZero : V → Bool) (items : List (String × Leaf V)) (dflt : Option (Dflt V))
+    (m : Mesh) (hm : m.Inv) (nv : Nat) (hnv : 0 < nv) (k1 k2 : String × Region → Nat → Nat)
+    (hal : ∀ p ∈ m.subs, AlignedSub m p.2 (k1 p) (k2 p)) :
+    ((∃ a, asArray isZero (.dict items dflt) m nv = .ok a) ↔ dictWF isZero items dflt m nv k1 k2) ∧
+    ((∃ e, asArray isZero (.dict items dflt) m nv = .error e) ↔ ¬ dictWF isZero items dflt m nv k1 k2) := by
+  have h1 := spec_ok_iff isZero (.dict items dflt) m hm nv hnv k1 k2 hal
+  simp only [Spec.WF] at h1
+  refine ⟨h1, ?_⟩
+  rw [← h1]
+  cases asArray isZero (.dict items dflt) m nv with
+  | ok a => simp
+  | error e => simp
+
+/-! ## round 2: the three ways of assigning a value agree -/
+
+/-- `field.array = value`, `field.update_field_values(value)` and `Field(mesh, nvdim, value=value)`
+— for EVERY specification (constant, array, function, dictionary, field): they are refused for
+exactly the same specifications, with the same error, namely when the conversion `_as_array` refuses
+(the constructor, in addition, when the labels are refused); and when accepted all three hold the
+same array of shape `(*n, nvdim)`: the conversion's result, entry by entry (the second conversion
+of the two-pass paths changes nothing). -/
+theorem assign_paths_agree (isZero : V → Bool) (reserved : List String) (f : VF V) (s : Spec V)
+    (vdims : Option (List String)) (hnv : 1 ≤ f.nvdim) :
+    (∀ e, asArray isZero s f.mesh f.nvdim = .error e →
+      f.setSpec isZero s = .error e ∧ f.update isZero s = .error e ∧
+      VF.new? isZero reserved f.mesh f.nvdim s vdims = .error e) ∧
+    (∀ a, asArray isZero s f.mesh f.nvdim = .ok a →
+      ∃ g1 g2, f.setSpec isZero s = .ok g1 ∧ f.update isZero s = .ok g2 ∧
+        g1.data.shape = f.mesh.n ++ [f.nvdim] ∧ g2.data.shape = f.mesh.n ++ [f.nvdim] ∧
+        (∀ j, inRange (f.mesh.n ++ [f.nvdim]) j = true → g1.data.get j = a.get j ∧ g2.data.get j = a.get j) ∧
+        (∀ vd, vdimsSet reserved f.nvdim vdims = .ok vd →
+          ∃ g3, VF.new? isZero reserved f.mesh f.nvdim s vdims = .ok g3 ∧ g3.mesh = f.mesh ∧ g3.nvdim = f.nvdim ∧
+            g3.data.shape = f.mesh.n ++ [f.nvdim] ∧
+            ∀ j, inRange (f.mesh.n ++ [f.nvdim]) j = true → g3.data.get j = a.get j) ∧
+        (∀ e, vdimsSet reserved f.nvdim vdims = .error e →
+          VF.new? isZero reserved f.mesh f.nvdim s vdims = .error e)) ∧
+    (((∃ e, f.setSpec isZero s = .error e) ↔ (∃ e, f.update isZero s = .error e)) ∧
+     ((∃ vd, vdimsSet reserved f.nvdim vdims = .ok vd) →
+       ((∃ e, f.update isZero s = .error e) ↔ ∃ e, VF.new? isZero reserved f.mesh f.nvdim s vdims = .error e))) := by
+  have hN := new_stores_spec isZero reserved f.mesh f.nvdim s vdims
+  have hU := update_stores_spec isZero f s
+  have part1 : ∀ e, asArray isZero s f.mesh f.nvdim = .error e →
+      f.setSpec isZero s = .error e ∧ f.update isZero s = .error e ∧
+      VF.new? isZero reserved f.mesh f.nvdim s vdims = .error e := fun e he =>
+    ⟨by simp [VF.setSpec, he], (hU.2 e he).1, hN.2.2.1 e hnv he⟩
+  refine ⟨part1, fun a ha => ?_, ?_, fun ⟨vd, hvd⟩ => ?_⟩
+  · obtain ⟨g2, hg2, _, _, _, _, hs2, hget2⟩ := hU.1 a ha
+    refine ⟨{ f with data := a }, g2, by simp [VF.setSpec, ha], hg2, asArray_shape isZero s _ _ a ha, hs2,
+      fun j hj => ⟨rfl, hget2 j hj⟩, fun vd hvd => ?_, fun e he => hN.2.2.2 a e hnv ha he⟩
+    obtain ⟨g3, hg3, h1, h2, _, h4, h5⟩ := hN.2.1 a vd hnv ha hvd
+    exact ⟨g3, hg3, h1, h2, h4, h5⟩
+  · cases ha : asArray isZero s f.mesh f.nvdim with
+    | error e =>
+      obtain ⟨h1, h2, _⟩ := part1 e ha
+      exact ⟨fun _ => ⟨e, h2⟩, fun _ => ⟨e, h1⟩⟩
+    | ok a =>
+      obtain ⟨g2, hg2, _⟩ := hU.1 a ha
+      constructor
+      · rintro ⟨e, he⟩; simp [VF.setSpec, ha] at he
+      · rintro ⟨e, he⟩; rw [hg2] at he; cases he
+  · cases ha : asArray isZero s f.mesh f.nvdim with
+    | error e =>
+      obtain ⟨_, h2, h3⟩ := part1 e ha
+      exact ⟨fun _ => ⟨e, h3⟩, fun _ => ⟨e, h2⟩⟩
+    | ok a =>
+      obtain ⟨g2, hg2, _⟩ := hU.1 a ha
+      obtain ⟨g3, hg3, _⟩ := hN.2.1 a vd hnv ha hvd
+      constructor
+      · rintro ⟨e, he⟩; rw [hg2] at he; cases he
+      · rintro ⟨e, he⟩; rw [hg3] at he; cases he
+
+/-- REJECTED ⇔ MALFORMED for all three paths at once: on a mesh whose subregions are unions of
+cells, the setter, `update_field_values` and the constructor (with acceptable labels) refuse a
+specification exactly when it is not well formed (`Spec.WF`: wrong type, component count or shape
+somewhere — whole value, a listed subregion's entry, the default), and then the field is unchanged. -/
+theorem assign_rejected_iff_malformed (isZero : V → Bool) (reserved : List String) (f : VF V) (hm : f.mesh.Inv)
+    (s : Spec V) (vdims : Option (List String)) (hnv : 1 ≤ f.nvdim) (k1 k2 : String × Region → Nat → Nat)
+    (hal : ∀ p ∈ f.mesh.subs, AlignedSub f.mesh p.2 (k1 p) (k2 p))
+    (hvd : ∃ vd, vdimsSet reserved f.nvdim vdims = .ok vd) :
+    ((∃ e, f.setSpec isZero s = .error e) ↔ ¬ Spec.WF isZero s f.mesh f.nvdim k1 k2) ∧
+    ((∃ e, f.update isZero s = .error e) ↔ ¬ Spec.WF isZero s f.mesh f.nvdim k1 k2) ∧
+    ((∃ e, VF.new? isZero reserved f.mesh f.nvdim s vdims = .error e) ↔ ¬ Spec.WF isZero s f.mesh f.nvdim k1 k2) ∧
+    (¬ Spec.WF isZero s f.mesh f.nvdim k1 k2 →
+      f.after (f.setSpec isZero s) = f ∧ f.after (f.update isZero s) = f) := by
+  have hiff := spec_ok_iff isZero s f.mesh hm f.nvdim hnv k1 k2 hal
+  obtain ⟨p1, p2, p3, p4⟩ := assign_paths_agree isZero reserved f s vdims hnv
+  have hset : (∃ e, f.setSpec isZero s = .error e) ↔ ¬ Spec.WF isZero s f.mesh f.nvdim k1 k2 := by
+    rw [← hiff]
+    cases ha : asArray isZero s f.mesh f.nvdim with
+    | error e => simp [VF.setSpec, ha]
+    | ok a => simp [VF.setSpec, ha]
+  refine ⟨hset, p3.symm.trans hset, (p4 hvd).symm.trans (p3.symm.trans hset), fun hbad => ?_⟩
+  obtain ⟨e, he⟩ := hset.mpr hbad
+  obtain ⟨e', he'⟩ := p3.mp ⟨e, he⟩
+  exact ⟨by rw [he]; rfl, by rw [he']; rfl⟩
+
+/-! ## round 2: a field as value — exactly which source cell is read -/
+
+/-- CLOSED FORM of the source cell.  A source field on any mesh whose region contains the target's:
+target cell `i` receives, component by component, the value of the source cell whose index along
+every axis `a` is `floor((centre_a(i) − src.pmin_a) / src.cell_a)` clipped to the source's cell
+range (`Mesh.indexAx`) — xarray's nearest-centre selection with ties to the larger index computes
+exactly this index. -/
+theorem asArray_field_reads_floor_cell (isZero : V → Bool) (src : VF V) (m : Mesh) (nv : Nat)
+    (hm : m.Inv) (hs : src.mesh.Inv) (hnd : src.mesh.ndim = m.ndim)
+    (hdims : m.region.dims = src.mesh.region.dims) (hnv : src.nvdim = nv)
+    (hin : ∀ a, a < m.ndim → src.mesh.region.lo a ≤ m.region.lo a ∧ m.region.hi a ≤ src.mesh.region.hi a) :
+    ∃ b, asArray isZero (.leaf (.field src)) m nv = .ok b ∧ b.shape = m.n ++ [nv] ∧
+      ∀ i c, inRange m.n i = true →
+        b.get (i ++ [c]) =
+          src.data.get ((tab m.ndim fun a => src.mesh.indexAx a (m.centreAx a (i.getD a 0 : Nat))) ++ [c]) := by
+  obtain ⟨b, hb, hshape, hget⟩ := asArray_field isZero src m nv hm hs hnd hdims hnv hin
+  refine ⟨b, hb, hshape, fun i c hi => ?_⟩
+  rw [(hget i c hi).1, nearestIdx_eq_indexAx src.mesh m hm hs hnd hin i hi]
+
+/-- TIES.  If along axis `a` the centre of target cell `i` lies exactly on the face between the
+source cells `k − 1` and `k`, the UPPER cell `k` is read (both are "a source cell containing that
+centre", the code always takes this one). -/
+theorem asArray_field_tie_upper (isZero : V → Bool) (src : VF V) (m : Mesh) (nv : Nat)
+    (hm : m.Inv) (hs : src.mesh.Inv) (hnd : src.mesh.ndim = m.ndim)
+    (hdims : m.region.dims = src.mesh.region.dims) (hnv : src.nvdim = nv)
+    (hin : ∀ a, a < m.ndim → src.mesh.region.lo a ≤ m.region.lo a ∧ m.region.hi a ≤ src.mesh.region.hi a)
+    (i : List Nat) (hi : inRange m.n i = true) (a : Nat) (ha : a < m.ndim) (k : Nat) (hk : k < src.mesh.nAt a)
+    (hface : m.centreAx a (i.getD a 0 : Nat) = src.mesh.region.lo a + (k : Rat) * src.mesh.cellAt a) :
+    ∃ b, asArray isZero (.leaf (.field src)) m nv = .ok b ∧
+      ∃ js, js.getD a 0 = k ∧ ∀ c, b.get (i ++ [c]) = src.data.get (js ++ [c]) := by
+  obtain ⟨b, hb, _, hget⟩ := asArray_field_reads_floor_cell isZero src m nv hm hs hnd hdims hnv hin
+  refine ⟨b, hb, _, ?_, fun c => hget i c hi⟩
+  rw [getD_tab _ _ _ _ ha, hface]
+  exact indexAx_face src.mesh a k hk (inv_lo_lt_hi _ hs a (by rw [hnd]; exact ha))
+
+/-- COARSER / FINER / SHIFTED source meshes, axis by axis.  Let `js` be the index of the source cell
+that target cell `i` reads.  Along an axis where source and target have the same edge and the source
+has `r` times FEWER cells, `js_a = i_a / r`; where it has `r` times MORE cells, `js_a = r·i_a + r/2`
+(odd `r`: the middle one of the `r` source cells inside the target cell; even `r`: the target centre
+is on a source face and the upper neighbour is read); where the cell sizes agree and the target's
+lower corner lies `s` source cells above the source's, `js_a = s + i_a`. -/
+theorem asArray_field_closed_forms (isZero : V → Bool) (src : VF V) (m : Mesh) (nv : Nat)
+    (hm : m.Inv) (hs : src.mesh.Inv) (hnd : src.mesh.ndim = m.ndim)
+    (hdims : m.region.dims = src.mesh.region.dims) (hnv : src.nvdim = nv)
+    (hin : ∀ a, a < m.ndim → src.mesh.region.lo a ≤ m.region.lo a ∧ m.region.hi a ≤ src.mesh.region.hi a)
+    (i : List Nat) (hi : inRange m.n i = true) :
+    ∃ b js, asArray isZero (.leaf (.field src)) m nv = .ok b ∧ (∀ c, b.get (i ++ [c]) = src.data.get (js ++ [c])) ∧
+      js.length = m.ndim ∧
+      (∀ a r, a < m.ndim → 0 < r → src.mesh.region.lo a = m.region.lo a → src.mesh.region.hi a = m.region.hi a →
+        m.nAt a = r * src.mesh.nAt a → js.getD a 0 = i.getD a 0 / r) ∧
+      (∀ a r, a < m.ndim → 0 < r → src.mesh.region.lo a = m.region.lo a → src.mesh.region.hi a = m.region.hi a →
+        src.mesh.nAt a = r * m.nAt a → js.getD a 0 = r * i.getD a 0 + r / 2) ∧
+      (∀ (a s : Nat), a < m.ndim → src.mesh.cellAt a = m.cellAt a →
+        m.region.lo a = src.mesh.region.lo a + (s : Rat) * src.mesh.cellAt a → s + i.getD a 0 < src.mesh.nAt a →
+        js.getD a 0 = s + i.getD a 0) := by
+  obtain ⟨b, hb, _, hget⟩ := asArray_field_reads_floor_cell isZero src m nv hm hs hnd hdims hnv hin
+  obtain ⟨_, hib⟩ := (inRange_iff m.n i).mp hi
+  have hlen : m.n.length = m.ndim := hm.2.1
+  have hia : ∀ a, a < m.ndim → i.getD a 0 < m.nAt a := fun a ha => hib a (by omega)
+  refine ⟨b, _, hb, fun c => hget i c hi, by simp, fun a r ha hr h1 h2 h3 => ?_, fun a r ha hr h1 h2 h3 => ?_,
+    fun a s ha h1 h2 h3 => ?_⟩
+  · rw [getD_tab _ _ _ _ ha]
+    exact indexAx_coarser src.mesh m a r _ hr h1 h2 h3 (hia a ha) (inv_lo_lt_hi m hm a ha)
+  · rw [getD_tab _ _ _ _ ha]
+    exact indexAx_finer src.mesh m a r _ hr h1 h2 h3 (hia a ha) (inv_lo_lt_hi m hm a ha)
+  · rw [getD_tab _ _ _ _ ha]
+    exact indexAx_shifted src.mesh m a s _ h1 h2 h3 (inv_lo_lt_hi _ hs a (by rw [hnd]; exact ha))
+
+/-! ## round 2: the stored array is a NEW array (ownership) -/
+
+/-- NO ALIASING, for every history.  In a session of field objects and arrays in which different
+objects hold different arrays (`Sess.Sep`; true of freshly created fields), after ANY sequence of
+assignments through the setter / `update_field_values` / the constructor — with another field of the
+session, an array of the session or any other value as the source — and in-place writes: different
+objects still hold different arrays, so an in-place write through one object (`f.array[j] = v`)
+changes that object's array and no other object's. -/
+theorem no_aliasing_ever (isZero : V → Bool) (st : Sess V) (h : st.Sep) (prog : List (Stmt V)) :
+    (st.run isZero prog).Sep ∧
+    ∀ i k j v, i < (st.run isZero prog).objs.length → k < (st.run isZero prog).objs.length → i ≠ k →
+      (((st.run isZero prog).step isZero (.poke ((st.run isZero prog).obj i).addr j v)).1.field k
+        = (st.run isZero prog).field k) ∧
+      (((st.run isZero prog).step isZero (.poke ((st.run isZero prog).obj i).addr j v)).1.field i
+        = { (st.run isZero prog).field i with data := pokeNDA ((st.run isZero prog).field i).data j v }) := by
+  have hsep := run_sep isZero st prog h
+  refine ⟨hsep, fun i k j v hi hk hne => ?_⟩
+  have hb := hsep.1 i hi
+  have e : ((st.run isZero prog).step isZero (.poke ((st.run isZero prog).obj i).addr j v)).1
+      = written (st.run isZero prog) ((st.run isZero prog).obj i).addr
+          (pokeNDA ((st.run isZero prog).buf ((st.run isZero prog).obj i).addr) j v) := by
+    simp only [Sess.step, hb, if_true]; rfl
+  rw [e]
+  obtain ⟨w1, w2, _⟩ := written_fields (st.run isZero prog) _
+    (pokeNDA ((st.run isZero prog).buf ((st.run isZero prog).obj i).addr) j v) hb
+  exact ⟨w1 k (hsep.2 k i hk hi (fun e => hne e.symm)), w2 i rfl⟩
+
+/-- A FIELD AS VALUE IS COPIED.  After `objs[i].array = objs[j]` (or `update_field_values`), object
+`i` holds the array the conversion assigns — for a source on the same mesh: the source's values
+cell by cell (`asArray_field_same_mesh`) — in a buffer that did not exist before; and whatever is
+done afterwards to the SOURCE, to any other object and to any other array (in-place writes,
+assignments, new fields: any history not assigning to `i` or writing into `i`'s own array) leaves
+object `i`'s array exactly as assigned. -/
+theorem field_value_is_copied (isZero : V → Bool) (st : Sess V) (h : st.Sep) (i : Nat) (src : Src V) (upd : Bool)
+    (hacc : (st.step isZero (if upd then .upd i src else .set i src)).2 = true) :
+    ∃ a, (if upd then updateValues isZero (st.spec src) (st.obj i).mesh (st.obj i).nvdim
+          else asArray isZero (st.spec src) (st.obj i).mesh (st.obj i).nvdim) = .ok a ∧
+      i < st.objs.length ∧
+      (st.step isZero (if upd then .upd i src else .set i src)).1 = assigned st i a ∧
+      (assigned st i a).field i = { st.field i with data := a } ∧
+      ((assigned st i a).obj i).addr = st.store.length ∧
+      (∀ k, k < st.objs.length → k ≠ i → (assigned st i a).field k = st.field k) ∧
+      ∀ prog : List (Stmt V),
+        (∀ c ∈ prog, c.assigns i = false ∧ c.writes st.store.length = false) →
+        ((assigned st i a).run isZero prog).field i = { st.field i with data := a } := by
+  have key : ∀ (r : M (NDA V)) (c : Stmt V),
+      (st.step isZero c) = (if i < st.objs.length then
+        match r with
+        | .error _ => (st, false)
+        | .ok a => (assigned st i a, true) else (st, false)) →
+      (st.step isZero c).2 = true → ∃ a, r = .ok a ∧ i < st.objs.length ∧ (st.step isZero c).1 = assigned st i a := by
+    intro r c hc hacc
+    rw [hc] at hacc ⊢
+    by_cases hi : i < st.objs.length
+    · rw [if_pos hi] at hacc ⊢
+      cases r with
+      | error e => simp at hacc
+      | ok a => exact ⟨a, rfl, hi, rfl⟩
+    · simp [hi] at hacc
+  have main : ∃ a, (if upd then updateValues isZero (st.spec src) (st.obj i).mesh (st.obj i).nvdim
+          else asArray isZero (st.spec src) (st.obj i).mesh (st.obj i).nvdim) = .ok a ∧
+      i < st.objs.length ∧ (st.step isZero (if upd then .upd i src else .set i src)).1 = assigned st i a := by
+    cases upd with
+    | true =>
+      simp only [if_true] at hacc ⊢
+      exact key _ _ rfl hacc
+    | false =>
+      simp only [Bool.false_eq_true, if_false] at hacc ⊢
+      exact key _ _ rfl hacc
+  obtain ⟨a, ha, hi, hstep⟩ := main
+  obtain ⟨f1, f2, _, f4⟩ := assigned_fields st i a hi h
+  refine ⟨a, ha, hi, hstep, f1, f4, f2, fun prog hprog => ?_⟩
+  have hsep' := assigned_sep st i a hi h
+  have := run_keeps isZero (assigned st i a) prog hsep' i (by simpa [assigned] using hi)
+    (fun c hc => by rw [f4]; exact hprog c hc)
+  rw [this, f1]
+
+/-! ## round 2: dictionaries — total statement, overlap patterns, key order -/
+
+/-- THE DICTIONARY CLAUSE WITH HYPOTHESES ON THE INPUTS ONLY.  On a mesh whose subregions are unions
+of cells (any number, any overlap pattern), a well-formed dictionary (`dictWF`; default absent,
+constant, function or field) is accepted, the result has shape `(*n, nvdim)`, and EVERY cell holds
+what the FIRST LISTED subregion that is a key and contains the cell's centre assigns to it, and
+otherwise what the default assigns. -/
+theorem asArray_dict_total (isZero : V → Bool) (items : List (String × Leaf V)) (dflt : Option (Dflt V))
+    (m : Mesh) (hm : m.Inv) (nv : Nat) (hnv : 0 < nv) (k1 k2 : String × Region → Nat → Nat)
+    (hal : ∀ p ∈ m.subs, AlignedSub m p.2 (k1 p) (k2 p))
+    (hwf : dictWF isZero items dflt m nv k1 k2) :
+    ∃ a, asArray isZero (.dict items dflt) m nv = .ok a ∧ a.shape = m.n ++ [nv] ∧
+      ∀ i c, inRange m.n i = true → c < nv →
+        a.get (i ++ [c]) =
+          match m.subs.find? (listedContains items m i) with
+          | some p => cellOf isZero items m nv k1 k2 i c p
+          | none => dfltVal dflt m nv i c := by
+  obtain ⟨a, ha⟩ := dict_ok_of_wf isZero items dflt m hm nv hnv k1 k2 hal hwf
+  exact ⟨a, ha, asArray_shape isZero _ m nv a ha, fun i c hi hc =>
+    asArray_dict_first_containing isZero items dflt m hm nv a k1 k2 hal ha i hi c hc⟩
+
+/-- EVERY OVERLAP PATTERN.  Split the list of subregions anywhere: `pre ++ p :: post`.  If `p` is a
+key of the dictionary and contains the centre of cell `i`, and no subregion of `pre` does, then cell
+`i` holds what `p`'s entry assigns — whatever subregions follow in `post`, however many of them also
+contain the cell, and whatever their entries are. -/
+theorem dict_overlap_first_wins (isZero : V → Bool) (items : List (String × Leaf V)) (dflt : Option (Dflt V))
+    (m : Mesh) (hm : m.Inv) (nv : Nat) (a : NDA V) (k1 k2 : String × Region → Nat → Nat)
+    (hal : ∀ p ∈ m.subs, AlignedSub m p.2 (k1 p) (k2 p))
+    (h : asArray isZero (.dict items dflt) m nv = .ok a)
+    (pre post : List (String × Region)) (p : String × Region) (hsplit : m.subs = pre ++ p :: post)
+    (i : List Nat) (hi : inRange m.n i = true) (c : Nat) (hc : c < nv)
+    (hpre : ∀ q ∈ pre, listedContains items m i q = false) (hp : listedContains items m i p = true) :
+    a.get (i ++ [c]) = cellOf isZero items m nv k1 k2 i c p := by
+  rw [asArray_dict_first_containing isZero items dflt m hm nv a k1 k2 hal h i hi c hc, hsplit,
+    List.find?_append]
+  have : pre.find? (listedContains items m i) = none := by
+    rw [List.find?_eq_none]; intro q hq; simp [hpre q hq]
+  rw [this]
+  simp [hp]
+
+/-- … and a cell that no listed subregion contains holds the default's value, for every kind of
+default: the constant (broadcast), the function's value at the cell centre, the field's sample at
+the cell centre. -/
+theorem dict_uncovered_default (isZero : V → Bool) (items : List (String × Leaf V)) (dflt : Option (Dflt V))
+    (m : Mesh) (hm : m.Inv) (nv : Nat) (a : NDA V) (k1 k2 : String × Region → Nat → Nat)
+    (hal : ∀ p ∈ m.subs, AlignedSub m p.2 (k1 p) (k2 p))
+    (h : asArray isZero (.dict items dflt) m nv = .ok a)
+    (i : List Nat) (hi : inRange m.n i = true) (c : Nat) (hc : c < nv)
+    (hun : ∀ q ∈ m.subs, listedContains items m i q = false) :
+    a.get (i ++ [c]) = dfltVal dflt m nv i c ∧
+    (∀ d, dflt = some (.val d) → a.get (i ++ [c]) = d.get (bcastIdx (m.n ++ [nv]) d.shape (i ++ [c]))) ∧
+    (∀ fn, dflt = some (.func fn) → a.get (i ++ [c]) = (fn (m.centre i)).getD c default) ∧
+    (∀ src vs, dflt = some (.field src) → src.call (m.centre i) = .ok vs → a.get (i ++ [c]) = vs.getD c default) := by
+  have e : a.get (i ++ [c]) = dfltVal dflt m nv i c := by
+    rw [asArray_dict_first_containing isZero items dflt m hm nv a k1 k2 hal h i hi c hc]
+    have : m.subs.find? (listedContains items m i) = none := by
+      rw [List.find?_eq_none]; intro q hq; simp [hun q hq]
+    rw [this]
+  refine ⟨e, fun d hd => ?_, fun fn hd => ?_, fun src vs hd hvs => ?_⟩
+  · rw [e, hd]; rfl
+  · rw [e, hd]; rfl
+  · rw [e, hd]; simp [dfltVal, hvs]
+
+/-- THE ORDER OF THE KEYS of the value dictionary is irrelevant (only the order of
+`mesh.subregions` decides): two dictionaries with the same entries in another insertion order
+(keys pairwise different, as in every Python dictionary) are converted to the same result —
+accepted or rejected alike. -/
+theorem dict_key_order_irrelevant (isZero : V → Bool) (items items' : List (String × Leaf V))
+    (dflt : Option (Dflt V)) (m : Mesh) (nv : Nat) (hp : items.Perm items') (hnd : (items.map (·.1)).Nodup) :
+    asArray isZero (.dict items dflt) m nv = asArray isZero (.dict items' dflt) m nv :=
+  asArray_dict_congr isZero items items' dflt m nv (lookupLeaf_perm items items' hp hnd)
+
+/-! ## round 2: lines — acceptance as an equivalence, and the whole data frame from the inputs -/
+
+omit [Inhabited V] in
+/-- A point can be sampled EXACTLY when the region contains it (with the region's tolerance). -/
+theorem call_ok_iff (f : VF V) (p : List Rat) :
+    (∃ vs, f.call p = .ok vs) ↔ f.mesh.region.containsPt p = true := by
+  unfold VF.call Mesh.point2index
+  by_cases hl : p.length = f.mesh.ndim
+  · by_cases hc : f.mesh.region.containsPt p = true
+    · simp [hl, hc]
+    · simp [hl, hc]
+  · have : f.mesh.region.containsPt p = false := by
+      unfold Region.containsPt
+      have : ¬ p.length = f.mesh.region.ndim := hl
+      simp [this]
+    simp [hl, this]
+
+omit [Inhabited V] in
+/-- A line is accepted EXACTLY when both end points are in the region (with the region's
+tolerance), at least two points are requested and every point of the line can be sampled. -/
+theorem line_ok_iff (f : VF V) (p1 p2 : List Rat) (n : Nat) :
+    (∃ o, f.line p1 p2 n = .ok o) ↔
+      f.mesh.region.containsPt p1 = true ∧ f.mesh.region.containsPt p2 = true ∧ 2 ≤ n ∧
+      ∀ j, j < n → f.mesh.region.containsPt (tab f.mesh.ndim fun a =>
+        p1.getD a 0 + (j : Rat) * ((p2.getD a 0 - p1.getD a 0) / ((n : Rat) - 1))) = true := by
+  constructor
+  · rintro ⟨o, h⟩
+    obtain ⟨hml, hv, _⟩ := line_ok f p1 p2 n o h
+    obtain ⟨hc1, hc2, hn, hpts⟩ := meshLine_ok _ _ _ _ _ hml
+    refine ⟨hc1, hc2, hn, fun j hj => ?_⟩
+    have hmem : f.call (tab f.mesh.ndim fun a =>
+        p1.getD a 0 + (j : Rat) * ((p2.getD a 0 - p1.getD a 0) / ((n : Rat) - 1))) ∈ o.points.map f.call := by
+      rw [hpts]
+      exact List.mem_map.mpr ⟨_, (mem_tab _ _ _).mpr ⟨j, hj, rfl⟩, rfl⟩
+    rw [hv] at hmem
+    obtain ⟨vs, _, hvs⟩ := List.mem_map.mp hmem
+    exact (call_ok_iff f _).mp ⟨vs, hvs.symm⟩
+  · rintro ⟨hc1, hc2, hn, hall⟩
+    have hml : meshLine f.mesh p1 p2 n = .ok (tab n fun i => tab f.mesh.ndim fun a =>
+        p1.getD a 0 + (i : Rat) * ((p2.getD a 0 - p1.getD a 0) / ((n : Rat) - 1))) := by
+      unfold meshLine
+      have : ¬ n < 2 := by omega
+      simp [hc1, hc2, this]
+    obtain ⟨vals, hvals⟩ := seqM_map_ok (tab n fun i => tab f.mesh.ndim fun a =>
+        p1.getD a 0 + (i : Rat) * ((p2.getD a 0 - p1.getD a 0) / ((n : Rat) - 1))) f.call (by
+      intro pt hpt
+      obtain ⟨j, hj, rfl⟩ := (mem_tab _ _ _).mp hpt
+      exact (call_ok_iff f _).mpr (hall j hj))
+    unfold VF.line
+    rw [hml]
+    simp only [hvals]
+    exact ⟨_, rfl⟩
+
+/-- THE LINE CLAUSE WITH HYPOTHESES ON THE INPUTS ONLY, for every number of mesh dimensions and every
+component count.  Two points of the region, `n ≥ 2`, and column names `r`, the mesh dimensions, the
+value columns pairwise different: `Field.line(p1, p2, n).data` exists, its columns are
+`r, *dims, *value columns` in this order; column `r` has `n` entries `r_j² = j²·|p2 − p1|²/(n − 1)²`
+(held squared); the column of dimension `a` has the `n` equally spaced coordinates
+`p1_a + j·(p2_a − p1_a)/(n − 1)` — first `p1_a`, last `p2_a`; the `c`-th value column has `n` entries,
+entry `j` being component `c` of the stored value of a cell that contains point `j`. -/
+theorem lineData_total (f : VF V) (hm : f.mesh.Inv) (p1 p2 : List Rat) (n : Nat) (hn : 2 ≤ n)
+    (h1 : f.mesh.region.containsExact p1) (h2 : f.mesh.region.containsExact p2)
+    (hnd : ("r" :: (f.mesh.region.dims ++ (valueColumns f.vdims f.nvdim).take f.nvdim)).Nodup) :
+    ∃ fr, f.lineData p1 p2 n = .ok fr ∧
+      colNames fr = "r" :: (f.mesh.region.dims ++ (valueColumns f.vdims f.nvdim).take f.nvdim) ∧
+      (∃ rs, colOf fr "r" = some (.dist2 rs) ∧ rs.length = n ∧
+        ∀ j, j < n → rs.getD j 0 = ((j : Rat) * (j : Rat)) / (((n : Rat) - 1) * ((n : Rat) - 1)) * sqDist p2 p1) ∧
+      (∀ a, a < f.mesh.region.dims.length →
+        ∃ xs, colOf fr (f.mesh.region.dims.getD a "") = some (.num xs) ∧ xs.length = n ∧
+          xs.getD 0 0 = p1.getD a 0 ∧ xs.getD (n - 1) 0 = p2.getD a 0 ∧
+          ∀ j, j < n → xs.getD j 0 = p1.getD a 0 + (j : Rat) * ((p2.getD a 0 - p1.getD a 0) / ((n : Rat) - 1))) ∧
+      (∀ c, c < f.nvdim → c < (valueColumns f.vdims f.nvdim).length →
+        ∃ vs, colOf fr ((valueColumns f.vdims f.nvdim).getD c "") = some (.val vs) ∧ vs.length = n ∧
+          ∀ j, j < n → ∃ i, inRange f.mesh.n i = true ∧ vs.getD j default = f.data.get (i ++ [c]) ∧
+            ∀ a, a < f.mesh.ndim →
+              f.mesh.region.lo a + (i.getD a 0 : Rat) * f.mesh.cellAt a
+                ≤ p1.getD a 0 + (j : Rat) * ((p2.getD a 0 - p1.getD a 0) / ((n : Rat) - 1)) ∧
+              (p1.getD a 0 + (j : Rat) * ((p2.getD a 0 - p1.getD a 0) / ((n : Rat) - 1))
+                  < f.mesh.region.lo a + ((i.getD a 0 : Rat) + 1) * f.mesh.cellAt a ∨
+                (i.getD a 0 = f.mesh.nAt a - 1 ∧
+                  p1.getD a 0 + (j : Rat) * ((p2.getD a 0 - p1.getD a 0) / ((n : Rat) - 1)) = f.mesh.region.hi a))) := by
+  obtain ⟨fr, hfr⟩ := lineData_accepts f p1 p2 n hn h1 h2
+  obtain ⟨o, ho, hnames, hr, hdimc, hvalc⟩ := lineData_columns f p1 p2 n fr hfr hnd
+  obtain ⟨hpl, hvl, hrl, hpts⟩ := line_points f p1 p2 n o ho
+  obtain ⟨he1, he2⟩ := line_ends f p1 p2 n o ho
+  have hdl : f.mesh.region.dims.length = f.mesh.ndim := hm.1.2.2.1
+  have hmapget : ∀ (g : List Rat → Rat) j, j < n → (o.points.map g).getD j 0 = g (o.points.getD j []) := by
+    intro g j hj
+    simp [List.getD_eq_getElem?_getD, hpl, hj]
+  refine ⟨fr, hfr, hnames, ⟨o.r2, hr, hrl, fun j hj => line_r2 f p1 p2 n o ho j hj⟩, fun a ha => ?_, fun c hc hc' => ?_⟩
+  · have ha' : a < f.mesh.ndim := by rw [← hdl]; exact ha
+    refine ⟨_, hdimc a ha, by simp [hpl], ?_, ?_, fun j hj => ?_⟩
+    · rw [hmapget _ 0 (by omega), he1]
+    · rw [hmapget _ (n - 1) (by omega), he2]
+    · rw [hmapget _ j hj, hpts j a hj ha']
+  · refine ⟨_, hvalc c hc hc', by simp [hvl], fun j hj => ?_⟩
+    obtain ⟨i, hir, hval, hbox⟩ := line_values_cell f hm p1 p2 n o ho h1 h2 j hj
+    refine ⟨i, hir, ?_, fun a ha => ?_⟩
+    · have : (o.values.map fun v => v.getD c default).getD j default = (o.values.getD j []).getD c default := by
+        simp [List.getD_eq_getElem?_getD, hvl, hj]
+      rw [this, hval]
+      unfold row
+      rw [getD_tab _ _ _ _ hc]
+    · have := hbox a ha
+      rw [hpts j a hj ha] at this
+      exact this
+
+/-! ## round 2: value types — which kind of array is stored -/
+
+/-- REQUESTED dtype: whatever the form of the specification (number, array, function, dictionary,
+field) and whatever the kind of the values, the setter, `update_field_values` and the constructor
+store an array of the requested kind. -/
+theorem kind_requested (k vk : Kind) (s : Spec V) (m : Mesh) (nv : Nat) :
+    specKind (some k) vk s m nv = k ∧ updKind (some k) vk s m nv = k := by
+  constructor
+  · cases s with
+    | dict items dflt => rfl
+    | leaf l =>
+      cases l with
+      | arr a => simp only [specKind, leafKind]; split <;> rfl
+      | _ => rfl
+  · simp only [updKind, leafKind]; split <;> rfl
+
+/-- NO dtype requested, `update_field_values` / constructor (two conversions): the stored array is
+float or complex, never bool or int — `max(kind of the first conversion, float64)` — and it is
+complex exactly when a COMPLEX number, array or source field is given; functions and dictionaries
+always give float (complex values need `dtype=`). -/
+theorem kind_not_requested_update (vk : Kind) (s : Spec V) (m : Mesh) (nv : Nat) :
+    updKind none vk s m nv = Kind.pmax (specKind none vk s m nv) .float ∧
+    (updKind none vk s m nv = .float ∨ updKind none vk s m nv = .complex) ∧
+    (updKind none vk s m nv = .complex ↔
+      vk = .complex ∧ ((∃ v, s = .leaf (.scalar v)) ∨ (∃ a, s = .leaf (.arr a)) ∨ ∃ src, s = .leaf (.field src))) := by
+  have h0 : updKind none vk s m nv = Kind.pmax (specKind none vk s m nv) .float := by
+    simp only [updKind, leafKind]
+    have : ¬ (nv = 1 ∧ (NDA.const (m.n ++ [nv]) (default : V)).shape = m.n) := by
+      rintro ⟨_, h⟩
+      have := congrArg List.length h
+      simp [NDA.const] at this
+    rw [if_neg this]
+  rw [h0]
+  cases s with
+  | dict items dflt =>
+    refine ⟨rfl, Or.inl rfl, ?_⟩
+    simp [specKind, Kind.pmax, Kind.rank]
+  | leaf l =>
+    cases l with
+    | bad => refine ⟨rfl, Or.inl rfl, ?_⟩; simp [specKind, leafKind, Kind.pmax, Kind.rank]
+    | func g => refine ⟨rfl, Or.inl rfl, ?_⟩; simp [specKind, leafKind, Kind.pmax, Kind.rank]
+    | scalar v =>
+      refine ⟨rfl, ?_, ?_⟩ <;> cases vk <;> simp [specKind, leafKind, Kind.pmax, Kind.rank]
+    | field src =>
+      refine ⟨rfl, ?_, ?_⟩ <;> cases vk <;> simp [specKind, leafKind, Kind.pmax, Kind.rank]
+    | arr a =>
+      refine ⟨rfl, ?_, ?_⟩ <;> cases vk <;> simp only [specKind, leafKind] <;> split <;>
+        simp [Kind.pmax, Kind.rank]
+
+/-- NO dtype requested, the `array` setter (one conversion): the stored kind is below float — the
+field silently becomes a bool or int field — in exactly two situations: a bool/int array of the
+cells' shape `n` assigned to a scalar field (the `np.array(val, dtype=None)` shortcut), and a source
+field whose array is bool/int.  The setter and the two-pass paths therefore store the SAME kind
+exactly when a dtype was requested or the single conversion already yields float or complex. -/
+theorem kind_setter_vs_update (dtype : Option Kind) (vk : Kind) (s : Spec V) (m : Mesh) (nv : Nat) :
+    ((specKind none vk s m nv).rank < Kind.float.rank ↔
+      vk.rank < Kind.float.rank ∧
+        ((∃ a, s = .leaf (.arr a) ∧ nv = 1 ∧ a.shape = m.n) ∨ ∃ src, s = .leaf (.field src))) ∧
+    (specKind dtype vk s m nv = updKind dtype vk s m nv ↔
+      dtype.isSome = true ∨ Kind.float.rank ≤ (specKind none vk s m nv).rank) := by
+  constructor
+  · cases s with
+    | dict items dflt => simp [specKind, Kind.rank]
+    | leaf l =>
+      cases l with
+      | bad => simp [specKind, leafKind, Kind.rank]
+      | func g => simp [specKind, leafKind, Kind.rank]
+      | scalar v => cases vk <;> simp [specKind, leafKind, Kind.pmax, Kind.rank]
+      | field src => simp [specKind, leafKind]
+      | arr a =>
+        simp only [specKind, leafKind]
+        split
+        · rename_i h; simp [h]
+        · rename_i h
+          cases vk <;> simp [Kind.pmax, Kind.rank] <;> intro h1 h2 <;> exact h ⟨h1, h2⟩
+  · cases dtype with
+    | some k =>
+      obtain ⟨h1, h2⟩ := kind_requested k vk s m nv
+      simp [h1, h2]
+    | none =>
+      rw [(kind_not_requested_update vk s m nv).1]
+      simp only [Option.isSome_none, Bool.false_eq_true, false_or]
+      generalize specKind none vk s m nv = k
+      cases k <;> simp [Kind.pmax, Kind.rank]
+
+/-! ## round 2: points let through by the region's tolerance; more equivalences -/
+
+omit [Inhabited V] in
+/-- Sampling at EVERY point the region accepts — also one that lies outside by less than the region's
+comparison tolerance: the stored row of a cell is returned whose index along each axis is 0 when the
+coordinate is at or below the lower face, the last index when it is at or above the upper face, and
+otherwise the index of the cell containing the coordinate (`call_cell_contains`). -/
+theorem call_tolerance_clips (f : VF V) (hm : f.mesh.Inv) (p : List Rat) (hc : f.mesh.region.containsPt p = true) :
+    ∃ i, f.call p = .ok (row f.data f.nvdim i) ∧ inRange f.mesh.n i = true ∧
+      ∀ a, a < f.mesh.ndim →
+        (p.getD a 0 ≤ f.mesh.region.lo a → i.getD a 0 = 0) ∧
+        (f.mesh.region.hi a ≤ p.getD a 0 → i.getD a 0 = f.mesh.nAt a - 1) ∧
+        (f.mesh.region.lo a ≤ p.getD a 0 → p.getD a 0 ≤ f.mesh.region.hi a →
+          f.mesh.region.lo a + (i.getD a 0 : Rat) * f.mesh.cellAt a ≤ p.getD a 0 ∧
+          (p.getD a 0 < f.mesh.region.lo a + ((i.getD a 0 : Rat) + 1) * f.mesh.cellAt a ∨
+            (i.getD a 0 = f.mesh.nAt a - 1 ∧ p.getD a 0 = f.mesh.region.hi a))) := by
+  have hl := containsPt_length _ _ hc
+  have hpi : f.mesh.point2index p = .ok (tab f.mesh.ndim fun a => f.mesh.indexAx a (p.getD a 0)) := by
+    unfold Mesh.point2index
+    have : ¬ p.length ≠ f.mesh.ndim := by
+      have h' : p.length = f.mesh.ndim := hl
+      simp [h']
+    simp [this, hc]
+  refine ⟨_, ((call_eq f p).1 _ hpi).1, ?_, fun a ha => ?_⟩
+  · rw [inRange_iff]
+    refine ⟨by rw [tab_length]; exact hm.2.1.symm, fun a ha => ?_⟩
+    have ha' : a < f.mesh.ndim := by have := hm.2.1; unfold Mesh.ndim; omega
+    rw [getD_tab _ _ _ _ ha']
+    exact indexAx_lt f.mesh a _ (inv_n_pos _ hm a ha')
+  · rw [getD_tab _ _ _ _ ha]
+    have hn := inv_n_pos _ hm a ha
+    have hr := inv_lo_lt_hi _ hm a ha
+    exact ⟨fun h => indexAx_low f.mesh a _ hn hr h, fun h => indexAx_high f.mesh a _ hn hr h,
+      fun h1 h2 => (indexAx_contains f.mesh a _ hn hr h1 h2).2⟩
+
+/-- Component access is accepted EXACTLY for the labels of the field. -/
+theorem comp_ok_iff (isZero : V → Bool) (f : VF V) (label : String) :
+    (∃ g, f.comp isZero label = .ok g) ↔ ∃ vs, f.vdims = some vs ∧ label ∈ vs := by
+  constructor
+  · rintro ⟨g, hg⟩
+    obtain ⟨_, _, _, vs, k, hvs, hk, hget, _⟩ := comp_eq isZero f label g hg
+    refine ⟨vs, hvs, ?_⟩
+    rw [← hget]
+    simp [List.getD_eq_getElem?_getD, hk]
+  · rintro ⟨vs, hvs, hmem⟩
+    cases hidx : indexOf? vs label with
+    | some k => exact comp_accepts isZero f label vs k hvs hidx
+    | none =>
+      exfalso
+      have : ∀ (xs : List String) (k0 : Nat), label ∈ xs → indexOf?.go label xs k0 ≠ none := by
+        intro xs
+        induction xs with
+        | nil => intro _ h; cases h
+        | cons y ys ih =>
+          intro k0 h
+          simp only [indexOf?.go]
+          split
+          · simp
+          · rename_i hne
+            rcases List.mem_cons.mp h with e | e
+            · exact absurd e.symm hne
+            · exact ih (k0 + 1) e
+      exact this vs 0 hmem hidx
+
+/-- The constructor is accepted EXACTLY for at least one component, a well-formed value
+(`Spec.WF`) and acceptable labels. -/
+theorem new_ok_iff (isZero : V → Bool) (reserved : List String) (m : Mesh) (hm : m.Inv) (nv : Nat) (s : Spec V)
+    (vdims : Option (List String)) (k1 k2 : String × Region → Nat → Nat)
+    (hal : ∀ p ∈ m.subs, AlignedSub m p.2 (k1 p) (k2 p)) :
+    (∃ g, VF.new? isZero reserved m nv s vdims = .ok g) ↔
+      1 ≤ nv ∧ Spec.WF isZero s m nv k1 k2 ∧ ∃ vd, vdimsSet reserved nv vdims = .ok vd := by
+  obtain ⟨n1, n2, n3, n4⟩ := new_stores_spec isZero reserved m nv s vdims
+  constructor
+  · rintro ⟨g, hg⟩
+    have hnv : 1 ≤ nv := by
+      by_contra hc
+      rw [n1 (by omega)] at hg; cases hg
+    refine ⟨hnv, ?_, ?_⟩
+    · rw [← spec_ok_iff isZero s m hm nv hnv k1 k2 hal]
+      cases ha : asArray isZero s m nv with
+      | ok a => exact ⟨a, rfl⟩
+      | error e => rw [n3 e hnv ha] at hg; cases hg
+    · cases ha : asArray isZero s m nv with
+      | error e => rw [n3 e hnv ha] at hg; cases hg
+      | ok a =>
+        cases hv : vdimsSet reserved nv vdims with
+        | ok vd => exact ⟨vd, rfl⟩
+        | error e => rw [n4 a e hnv ha hv] at hg; cases hg
+  · rintro ⟨hnv, hwf, vd, hvd⟩
+    obtain ⟨a, ha⟩ := (spec_ok_iff isZero s m hm nv hnv k1 k2 hal).mpr hwf
+    obtain ⟨g, hg, _⟩ := n2 a vd hnv ha hvd
+    exact ⟨g, hg⟩
+
+/-! ## round 2: the driver's fast conversion of a source field is the code-shaped one -/
+
+/-- VERIFIED OPTIMISATION.  Whenever both meshes satisfy the mesh invariant and the source region
+contains the target region exactly (`fieldFastOk`, a decidable test the driver runs), converting a
+source field with the closed formula of the source cell (`asLeafFieldFast`: per axis
+`floor((centre − src.pmin)/src.cell)`, clipped) gives the same outcome as the code-shaped conversion
+with its nearest-centre scan: rejected with the same error, or accepted with the same shape and the
+same entries.  (The driver uses the fast form for source fields with thousands of cells.) -/
+theorem field_fast_path_equal (isZero : V → Bool) (src : VF V) (m : Mesh) (nv : Nat) (h : fieldFastOk src m = true) :
+    (∀ e, asArray isZero (.leaf (.field src)) m nv = .error e ↔ asLeafFieldFast src m nv = .error e) ∧
+    (∀ a, asArray isZero (.leaf (.field src)) m nv = .ok a →
+      ∃ b, asLeafFieldFast src m nv = .ok b ∧ b.shape = a.shape ∧
+        ∀ j, inRange (m.n ++ [nv]) j = true → b.get j = a.get j) :=
+  asLeafFieldFast_eq isZero src m nv h
+
+/-! ## round 2: end to end — dictionary, then sample; same-mesh source in a session -/
+
+/-- A field constructed from a well-formed DICTIONARY over subregions (any overlap pattern, any kind of
+default), sampled at ANY point of the region, returns — component by component — what the FIRST LISTED
+subregion that is a key and contains the centre of the cell containing the point assigns to that cell,
+otherwise the default's value for that cell. -/
+theorem construct_dict_call (isZero : V → Bool) (reserved : List String) (m : Mesh) (hm : m.Inv) (nv : Nat)
+    (items : List (String × Leaf V)) (dflt : Option (Dflt V)) (k1 k2 : String × Region → Nat → Nat)
+    (hal : ∀ p ∈ m.subs, AlignedSub m p.2 (k1 p) (k2 p))
+    (vdims : Option (List String)) (g : VF V)
+    (h : VF.new? isZero reserved m nv (.dict items dflt) vdims = .ok g)
+    (p : List Rat) (hp : m.region.containsExact p) :
+    ∃ i vs, inRange m.n i = true ∧ g.call p = .ok vs ∧ vs.length = nv ∧
+      (∀ c, c < nv → vs.getD c default =
+        match m.subs.find? (listedContains items m i) with
+        | some q => cellOf isZero items m nv k1 k2 i c q
+        | none => dfltVal dflt m nv i c) ∧
+      ∀ a, a < m.ndim →
+        m.region.lo a + (i.getD a 0 : Rat) * m.cellAt a ≤ p.getD a 0 ∧
+        (p.getD a 0 < m.region.lo a + ((i.getD a 0 : Rat) + 1) * m.cellAt a ∨
+          (i.getD a 0 = m.nAt a - 1 ∧ p.getD a 0 = m.region.hi a)) := by
+  obtain ⟨n1, n2, n3, n4⟩ := new_stores_spec isZero reserved m nv (.dict items dflt) vdims
+  have hnv : 1 ≤ nv := by
+    by_contra hc
+    rw [n1 (by omega)] at h; cases h
+  cases ha : asArray isZero (.dict items dflt) m nv with
+  | error e => rw [n3 e hnv ha] at h; cases h
+  | ok a =>
+    cases hv : vdimsSet reserved nv vdims with
+    | error e => rw [n4 a e hnv ha hv] at h; cases h
+    | ok vd =>
+      obtain ⟨g', hg', hgm, hgn, _, hgs, hgg⟩ := n2 a vd hnv ha hv
+      rw [hg'] at h
+      injection h with h; subst h
+      obtain ⟨i, hcall, hir, hbox⟩ := call_cell_contains g' (by rw [hgm]; exact hm) p (by rw [hgm]; exact hp)
+      rw [hgm] at hir hbox
+      refine ⟨i, _, hir, hcall, by simp [row, hgn], fun c hc => ?_, hbox⟩
+      rw [hgn]
+      unfold row
+      rw [getD_tab _ _ _ _ hc, hgg _ (by rw [inRange_snoc, hir]; simp [hc])]
+      exact asArray_dict_first_containing isZero items dflt m hm nv a k1 k2 hal ha i hir c hc
+
+/-- SAME-MESH SOURCE IN A SESSION: `objs[i].array = objs[j]` (or `update_field_values`) where both
+objects live on the same mesh with the same number of components is accepted; afterwards object `i`
+holds object `j`'s values cell by cell, in an array of its own: whatever is then written in place into
+the SOURCE's array (or done to any other object) leaves object `i` as assigned. -/
+theorem session_same_mesh_copy (isZero : V → Bool) (st : Sess V) (h : st.Sep) (i j : Nat) (upd : Bool)
+    (hi : i < st.objs.length) (hmesh : (st.obj i).mesh = (st.obj j).mesh) (hnv : (st.obj i).nvdim = (st.obj j).nvdim)
+    (hm : (st.obj j).mesh.Inv) :
+    ∃ a, (st.step isZero (if upd then .upd i (.obj j) else .set i (.obj j))).1 = assigned st i a ∧
+      (st.step isZero (if upd then .upd i (.obj j) else .set i (.obj j))).2 = true ∧
+      a.shape = (st.obj j).mesh.n ++ [(st.obj j).nvdim] ∧
+      (∀ k c, inRange (st.obj j).mesh.n k = true → c < (st.obj j).nvdim →
+        a.get (k ++ [c]) = (st.field j).data.get (k ++ [c])) ∧
+      ∀ prog : List (Stmt V),
+        (∀ c ∈ prog, c.assigns i = false ∧ c.writes st.store.length = false) →
+        ((assigned st i a).run isZero prog).field i = { st.field i with data := a } := by
+  obtain ⟨b, hb, hbs, hbg⟩ := asArray_field_same_mesh isZero (st.field j) hm
+  have hb' : asArray isZero (st.spec (.obj j)) (st.obj i).mesh (st.obj i).nvdim = .ok b := by
+    rw [hmesh, hnv]; exact hb
+  obtain ⟨u, hu, hus, hug⟩ := updateValues_of_ok isZero _ _ _ b hb'
+  have hacc : (st.step isZero (if upd then .upd i (.obj j) else .set i (.obj j))).2 = true := by
+    cases upd with
+    | true => simp only [if_true, Sess.step, hi, hu]
+    | false => simp only [Bool.false_eq_true, if_false, Sess.step, hi, if_true, hb']
+  obtain ⟨a, ha, _, hstep, _, _, _, hkeep⟩ := field_value_is_copied isZero st h i (.obj j) upd hacc
+  refine ⟨a, hstep, hacc, ?_, fun k c hk hc => ?_, hkeep⟩
+  · cases upd with
+    | true =>
+      simp only [if_true] at ha
+      rw [hu] at ha; injection ha with ha; subst ha
+      rw [hus, hmesh, hnv]
+    | false =>
+      simp only [Bool.false_eq_true, if_false] at ha
+      rw [hb'] at ha; injection ha with ha; subst ha
+      exact hbs
+  · cases upd with
+    | true =>
+      simp only [if_true] at ha
+      rw [hu] at ha; injection ha with ha; subst ha
+      rw [hug _ (by rw [hmesh, hnv, inRange_snoc, hk]; simp [hc])]
+      exact hbg k c hk hc
+    | false =>
+      simp only [Bool.false_eq_true, if_false] at ha
+      rw [hb'] at ha; injection ha with ha; subst ha
+      exact hbg k c hk hc
+
 /-! ## non-vacuity: a 2-d mesh, 4 × 2 cells of size 1, two overlapping subregions -/
 
 section Ex
@@ -1626,6 +2367,120 @@ example (f : VF Rat) : (∃ a, Assign.result (fun v : Rat => v == 0) f.mesh f.nv
   obtain ⟨a, ha, _, _⟩ := asArray_const (fun v : Rat => v == 0) 0 f.mesh f.nvdim (Or.inr rfl)
   obtain ⟨b, hb, _, _⟩ := updateValues_of_ok _ _ f.mesh f.nvdim a ha
   exact ⟨⟨b, hb⟩, .type, rfl⟩
+
+/-! ### round 2 -/
+
+example : ∃ a, asArray (fun v : Rat => v == 0) (.dict [("r2", .scalar 2), ("r1", .scalar 1)]
+    (some (.func fun p => [p.getD 0 0]))) m0 1 = .ok a ∧ a.shape = [4, 2, 1] := by
+  obtain ⟨a, h1, h2, _⟩ := asArray_dict_total _ _ _ m0 m0_inv 1 (by decide) k1 k2 m0_aligned ex_dictWF
+  exact ⟨a, h1, h2⟩
+
+/-- … and `{"r1": 1}` without default is NOT well formed (cell (3,1) is uncovered): rejected -/
+example : ∃ e, asArray (fun v : Rat => v == 0) (.dict [("r1", .scalar 1)] none) m0 1 = .error e := by
+  apply (asArray_dict_ok_iff _ _ _ m0 m0_inv 1 (by decide) k1 k2 m0_aligned).2.mpr
+  rintro ⟨_, _, h3⟩
+  exact h3 [3, 1] (by decide) (by decide)
+
+/-- `dict_overlap_first_wins`: cell (1,0) lies in `r1` and in `r2`; `r1` is listed first -/
+example : m0.subs = [] ++ ("r1", reg [0, 0] [2, 2]) :: [("r2", reg [1, 0] [4, 1])] ∧
+    listedContains [("r2", Leaf.scalar (2 : Rat)), ("r1", .scalar 1)] m0 [1, 0] ("r1", reg [0, 0] [2, 2]) = true ∧
+    listedContains [("r2", Leaf.scalar (2 : Rat)), ("r1", .scalar 1)] m0 [1, 0] ("r2", reg [1, 0] [4, 1]) = true := by
+  refine ⟨rfl, ?_, ?_⟩
+  · rw [← hits_eq_listedContains _ m0 m0_inv k1 k2 _ (m0_aligned _ (by simp [m0])) [1, 0] (by decide)]; decide
+  · rw [← hits_eq_listedContains _ m0 m0_inv k1 k2 _ (m0_aligned _ (by simp [m0])) [1, 0] (by decide)]; decide
+
+/-- `dict_uncovered_default`: cell (3,1) lies in no subregion -/
+example : ∀ q ∈ m0.subs, listedContains [("r2", Leaf.scalar (2 : Rat)), ("r1", .scalar 1)] m0 [3, 1] q = false := by
+  intro q hq
+  rw [← hits_eq_listedContains _ m0 m0_inv k1 k2 q (m0_aligned q hq) [3, 1] (by decide)]
+  simp only [m0, List.mem_cons, List.mem_nil_iff, or_false] at hq
+  rcases hq with rfl | rfl <;> decide
+
+/-- `dict_key_order_irrelevant` -/
+example : ([("r2", Leaf.scalar (2 : Rat)), ("r1", .scalar 1)]).Perm [("r1", .scalar 1), ("r2", .scalar 2)] ∧
+    (([("r2", Leaf.scalar (2 : Rat)), ("r1", .scalar 1)]).map (·.1)).Nodup :=
+  ⟨List.Perm.swap _ _ _, by decide⟩
+
+/-- `assign_rejected_iff_malformed`: a scalar field on `m0` without labels; the malformed value `"abc"` -/
+example (data : NDA Rat) : (∃ vd, vdimsSet [] (VF.mk m0 1 data none).nvdim none = .ok vd) ∧
+    ¬ Spec.WF (fun v : Rat => v == 0) (.leaf .bad) m0 1 k1 k2 ∧
+    Spec.WF (fun v : Rat => v == 0) (.leaf (.scalar 3)) m0 1 k1 k2 :=
+  ⟨⟨_, rfl⟩, id, Or.inl (Nat.le_refl 1)⟩
+
+/-- `asArray_field_reads_floor_cell`, `asArray_field_closed_forms` (finer source, `r = 2`, both axes)
+and `asArray_field_tie_upper`: the source lives on the 8 × 4 mesh; the centre 1/2 of target cell 0
+lies on the face between the source cells 0 and 1 -/
+example : mFine.Inv ∧ mFine.ndim = m0.ndim ∧ m0.region.dims = mFine.region.dims ∧
+    (∀ a, a < m0.ndim → mFine.region.lo a ≤ m0.region.lo a ∧ m0.region.hi a ≤ mFine.region.hi a) ∧
+    (∀ a, a < m0.ndim → mFine.nAt a = 2 * m0.nAt a) ∧
+    m0.centreAx 0 (([0, 0] : List Nat).getD 0 0 : Nat) = mFine.region.lo 0 + ((1 : Nat) : Rat) * mFine.cellAt 0 := by
+  refine ⟨mFine_inv, rfl, rfl, fun a ha => ?_, fun a ha => ?_, by
+    norm_num [Mesh.centreAx, Mesh.cellAt, Mesh.nAt, Region.edge, Region.hi, Region.lo, m0, mFine, reg]⟩
+  · rcases lt_two a ha with rfl | rfl <;> decide
+  · rcases lt_two a ha with rfl | rfl <;> decide
+
+/-- … coarser (`m0` as the source of a field on `mFine`, `r = 2`) and shifted (`r1`'s own mesh inside `m0`,
+`s = 0`; the subregion `r2` starts `s = 1` cells above `m0`'s corner along `x`) -/
+example : (∀ a, a < mFine.ndim → mFine.nAt a = 2 * m0.nAt a) ∧
+    (reg [1, 0] [4, 1]).lo 0 = m0.region.lo 0 + ((1 : Nat) : Rat) * m0.cellAt 0 := by
+  refine ⟨fun a ha => ?_, by
+    norm_num [Mesh.cellAt, Mesh.nAt, Region.edge, Region.hi, Region.lo, m0, reg]⟩
+  rcases lt_two a ha with rfl | rfl <;> decide
+
+example (a b c : NDA Rat) : ((st0 a b c).step (fun v : Rat => v == 0) (if false then .upd 0 (.obj 1) else .set 0 (.obj 1))).2 = true := by
+  have hc : m0.region.containsReg m0.region = true := by decide
+  simp [Sess.step, st0, Sess.spec, Sess.field, Sess.obj, asArray, asLeaf, hc]
+
+/-- `lineData_total`: labels `x, y`, dimensions `x, y`, the diagonal with 3 points -/
+example : m0.Inv ∧ 2 ≤ 3 ∧ m0.region.containsExact [0, 0] ∧ m0.region.containsExact [4, 2] ∧
+    ("r" :: (m0.region.dims ++ (valueColumns (some ["x", "y"]) 2).take 2)).Nodup :=
+  ⟨m0_inv, by omega, mD_corner0 "x" "y", mD_corner1 "x" "y", by decide⟩
+
+/-- `line_ok_iff`: the right-hand side holds for the diagonal of `m0` -/
+example (data : NDA Rat) : m0.region.containsPt [0, 0] = true ∧ m0.region.containsPt [4, 2] = true ∧
+    ∃ o, (VF.mk m0 1 data none).line [0, 0] [4, 2] 3 = .ok o := by
+  obtain ⟨o, ho⟩ := line_accepts (VF.mk m0 1 data none) [0, 0] [4, 2] 3 (by omega)
+    (mD_corner0 "x" "y") (mD_corner1 "x" "y")
+  obtain ⟨h1, h2, _, _⟩ := (line_ok_iff (VF.mk m0 1 data none) [0, 0] [4, 2] 3).mp ⟨o, ho⟩
+  exact ⟨h1, h2, o, ho⟩
+
+/-- kinds: an int array of the cells' shape assigned to a scalar float field without requested dtype:
+the setter stores int, `update_field_values` float; with `dtype=float` both store float -/
+example (a : NDA Rat) (h : a.shape = m0.n) :
+    specKind none .int (.leaf (.arr a)) m0 1 = .int ∧ updKind none .int (.leaf (.arr a)) m0 1 = .float ∧
+    specKind (some .float) .int (.leaf (.arr a)) m0 1 = .float := by
+  refine ⟨by simp [specKind, leafKind, h], ?_, (kind_requested .float .int _ m0 1).1⟩
+  rw [(kind_not_requested_update .int (.leaf (.arr a)) m0 1).1]
+  simp [specKind, leafKind, h, Kind.pmax, Kind.rank]
+
+/-- `field_fast_path_equal`: the test holds for a source on the finer mesh `mFine` and the target `m0` -/
+example (data : NDA Rat) : fieldFastOk (VF.mk mFine 1 data none) m0 = true := by
+  simp only [fieldFastOk, Bool.and_eq_true, decide_eq_true_eq]
+  refine ⟨⟨⟨by decide, by decide⟩, rfl⟩, ?_⟩
+  rw [allLt_iff]
+  intro a ha
+  rcases lt_two a ha with rfl | rfl <;> norm_num [Region.lo, Region.hi, mFine, m0, reg]
+
+/-- `call_tolerance_clips`: the point (−10⁻¹³, 1) lies outside `m0` but within its tolerance -/
+example : m0.region.containsPt [-(1 / 10000000000000), 1] = true := by
+  norm_num [Region.containsPt, Region.containsAx, Region.isclose, Region.atol, Region.edges, Region.edge, Region.ndim,
+    Region.lo, Region.hi, allLt, tab, listMin, absR, m0, reg, List.range, List.range.loop]
+
+/-- `new_ok_iff`: one component, the constant 3, default labels -/
+example : 1 ≤ 1 ∧ Spec.WF (fun v : Rat => v == 0) (.leaf (.scalar 3)) m0 1 k1 k2 ∧ ∃ vd, vdimsSet [] 1 none = .ok vd :=
+  ⟨Nat.le_refl 1, Or.inl (Nat.le_refl 1), _, rfl⟩
+
+
+/-- `construct_dict_call`: the constructor accepts the well-formed dictionary of `ex_dictWF` on `m0` -/
+example : ∃ g, VF.new? (fun v : Rat => v == 0) [] m0 1 (.dict [("r2", .scalar 2), ("r1", .scalar 1)]
+    (some (.func fun p => [p.getD 0 0]))) none = .ok g :=
+  (new_ok_iff _ [] m0 m0_inv 1 _ none k1 k2 m0_aligned).mpr ⟨Nat.le_refl 1, ex_dictWF, _, rfl⟩
+
+/-- `session_same_mesh_copy`: the two objects of `st0` live on the same mesh `m0` with one component -/
+example (a b c : NDA Rat) : (st0 a b c).Sep ∧ 0 < (st0 a b c).objs.length ∧
+    ((st0 a b c).obj 0).mesh = ((st0 a b c).obj 1).mesh ∧ ((st0 a b c).obj 0).nvdim = ((st0 a b c).obj 1).nvdim ∧
+    ((st0 a b c).obj 1).mesh.Inv :=
+  ⟨st0_sep a b c, by simp [st0], rfl, rfl, m0_inv⟩
 
 end Ex
 
